@@ -1,6 +1,7 @@
 SPEC = {
     "lean_modules": ["AM.Props.C17", "AM.Props.C06", "AM.Props.C07"],
     "theorems": [
+        "AM.Route.route_key_spec",
         "AM.Route.match_iff_selects", "AM.Route.match_iff_selects_real", "AM.Route.selects_complete", "AM.Route.selects_unique",
         "AM.Route.child_selects_iff_child_matches", "AM.Route.matchP_nil_iff", "AM.Route.match_nonempty",
         "AM.Route.accepts_newRoute", "AM.Route.inherit_spec", "AM.Route.lookup_mergeLabels", "AM.Route.newRoute_opts",
